@@ -41,6 +41,9 @@ type c02Scenario struct {
 	DelayMs   int   `json:"delay_ms"`   // scheduled time = now + delay
 	CallersUs []int `json:"callers_us"` // run-now requests at scheduled time + offset (µs)
 	CancelsUs []int `json:"cancels_us"` // cancel requests at scheduled time + offset (µs)
+	// free mode: thread names of the requests (the name's first letter selects the entry point, see c02Call)
+	CallerNames []string `json:"caller_names"`
+	CancelNames []string `json:"cancel_names"`
 	CtxUs     int   `json:"ctx_us"`     // 0 = never; otherwise cancel the context at scheduled time + offset
 	Instances int   `json:"instances"`  // periodic: number of instances
 }
@@ -144,10 +147,10 @@ func (c *c02Ctl) release(th string) bool {
 	c.mu.Lock()
 	g := c.parked[th]
 	delete(c.parked, th)
-	if th[0] == 'c' {
+	if c02IsRunner(th) {
 		c.moverR = th
 	}
-	if th[0] == 'k' {
+	if c02IsCanceller(th) {
 		c.moverK = th
 	}
 	c.mu.Unlock()
@@ -194,6 +197,32 @@ func (c *c02Ctl) drainArrivals() {
 		c.seen[th] = g
 	}
 	c.mu.Unlock()
+}
+
+// The thread's name says which entry point of the scheduler it uses: every one of them is part of the
+// protocol (the controller uses the IfExists and prefix forms far more than the plain ones).
+//   c* RunJob   i* RunJobIfExists   k* CancelJob   j* CancelJobIfExists   p* CancelJobs(prefix)
+var c02Threads = []string{"g", "c1", "c2", "c3", "i1", "i2", "k1", "k2", "j1", "p1"}
+
+func c02IsRunner(th string) bool    { return th[0] == 'c' || th[0] == 'i' }
+func c02IsCanceller(th string) bool { return th[0] == 'k' || th[0] == 'j' || th[0] == 'p' }
+
+// c02Call makes thread th's call and names its result ("none": the entry point returns nothing).
+func c02Call(ctx context.Context, s *Service, th, name string) string {
+	switch th[0] {
+	case 'c':
+		return c02Result(s.RunJob(ctx, name))
+	case 'i':
+		s.RunJobIfExists(ctx, name)
+	case 'k':
+		return c02Result(s.CancelJob(ctx, name))
+	case 'j':
+		s.CancelJobIfExists(ctx, name)
+	case 'p':
+		// the job's name without its last character: matches this scenario's job (and its successor) only
+		s.CancelJobs(ctx, name[:len(name)-1])
+	}
+	return "none"
 }
 
 func c02Result(err error) string {
@@ -310,7 +339,7 @@ func c02Gated(t testing.TB, tr *verifsupport.Trace, sc c02Scenario, settle time.
 		pending[who] = true
 		pmu.Unlock()
 		ctl.mu.Lock()
-		if who[0] == 'c' {
+		if c02IsRunner(who) {
 			ctl.moverR = who
 		} else {
 			ctl.moverK = who
@@ -321,19 +350,19 @@ func c02Gated(t testing.TB, tr *verifsupport.Trace, sc c02Scenario, settle time.
 		go func() {
 			defer wg.Done()
 			var err error
+			res := ""
 			func() {
 				defer func() {
 					if r := recover(); r != nil {
 						err = fmt.Errorf("panic: %v", r)
 					}
 				}()
-				if who[0] == 'c' {
-					err = s.RunJob(ctx, name)
-				} else {
-					err = s.CancelJob(ctx, name)
-				}
+				res = c02Call(ctx, s, who, name)
 			}()
-			ctl.emit(verifsupport.Ev{"ev": "Ret", "th": who, "res": c02Result(err)})
+			if err != nil {
+				res = c02Result(err)
+			}
+			ctl.emit(verifsupport.Ev{"ev": "Ret", "th": who, "res": res})
 			pmu.Lock()
 			pending[who] = false
 			pmu.Unlock()
@@ -435,7 +464,7 @@ func c02Gated(t testing.TB, tr *verifsupport.Trace, sc c02Scenario, settle time.
 	for round := 0; round < 400; round++ {
 		clock()
 		progressed := false
-		for _, th := range []string{"g", "c1", "c2", "c3", "k1", "k2"} {
+		for _, th := range c02Threads {
 			if ctl.release(th) {
 				ctl.await(th, settle)
 				progressed = true
@@ -489,7 +518,7 @@ func c02Gated(t testing.TB, tr *verifsupport.Trace, sc c02Scenario, settle time.
 		// Unblock whatever is left so the test process can end.
 		cancel()
 		for i := 0; i < 50; i++ {
-			for _, th := range []string{"g", "c1", "c2", "c3", "k1", "k2"} {
+			for _, th := range c02Threads {
 				ctl.release(th)
 			}
 			time.Sleep(2 * time.Millisecond)
@@ -537,26 +566,32 @@ func c02Free(t testing.TB, tr *verifsupport.Trace, sc c02Scenario) {
 	var wg sync.WaitGroup
 	for i, off := range sc.CallersUs {
 		who := fmt.Sprintf("c%d", i+1)
+		if i < len(sc.CallerNames) {
+			who = sc.CallerNames[i]
+		}
 		at := runtime.Add(time.Duration(off) * time.Microsecond)
 		wg.Add(1)
 		go func() {
 			defer wg.Done()
 			c02SpinUntil(at)
 			ctl.emit(verifsupport.Ev{"ev": "Call", "th": who})
-			err := s.RunJob(ctx, name)
-			ctl.emit(verifsupport.Ev{"ev": "Ret", "th": who, "res": c02Result(err)})
+			res := c02Call(ctx, s, who, name)
+			ctl.emit(verifsupport.Ev{"ev": "Ret", "th": who, "res": res})
 		}()
 	}
 	for i, off := range sc.CancelsUs {
 		who := fmt.Sprintf("k%d", i+1)
+		if i < len(sc.CancelNames) {
+			who = sc.CancelNames[i]
+		}
 		at := runtime.Add(time.Duration(off) * time.Microsecond)
 		wg.Add(1)
 		go func() {
 			defer wg.Done()
 			c02SpinUntil(at)
 			ctl.emit(verifsupport.Ev{"ev": "Call", "th": who})
-			err := s.CancelJob(ctx, name)
-			ctl.emit(verifsupport.Ev{"ev": "Ret", "th": who, "res": c02Result(err)})
+			res := c02Call(ctx, s, who, name)
+			ctl.emit(verifsupport.Ev{"ev": "Ret", "th": who, "res": res})
 		}()
 	}
 	if sc.CtxUs != 0 {
